@@ -163,8 +163,11 @@ type World struct {
 	keyC      *btcec.PrivateKey
 	storedByS [][]byte // remote static keys the server was told to store
 	storedByC [][]byte
-	authSeenC [][]byte
-	authSeenI [][]byte
+	// index of the session whose handshake was running when the key was
+	// handed over for storing
+	storedAtS, storedAtC []int
+	authSeenC            [][]byte
+	authSeenI            [][]byte
 
 	relayChecked int
 	intruderOn   bool
@@ -212,6 +215,7 @@ func newWorld(s *vrt.Sched, sc *Scenario) *World {
 		func(k *btcec.PublicKey) error {
 			w.mu.Lock()
 			w.storedByS = append(w.storedByS, k.SerializeCompressed())
+			w.storedAtS = append(w.storedAtS, len(w.sessS)-1)
 			w.mu.Unlock()
 			return nil
 		}, nil)
@@ -219,6 +223,7 @@ func newWorld(s *vrt.Sched, sc *Scenario) *World {
 		func(k *btcec.PublicKey) error {
 			w.mu.Lock()
 			w.storedByC = append(w.storedByC, k.SerializeCompressed())
+			w.storedAtC = append(w.storedAtC, len(w.sessC)-1)
 			w.mu.Unlock()
 			return nil
 		},
